@@ -34,7 +34,7 @@ mod verif_kani {
         let sig = Signature(ecdsa::Signature::from_scalars(scalar(rb), scalar(sb)).unwrap(), RecoveryId::new(parity, false));
         let out = tx.rlp_encode(if SIGNED { Some(sig) } else { None });
 
-        assert!(out.len() == 2 && out[0] == 0x01 && out[1] == 0xee, "eip2930: type byte 0x01 followed by exactly one RLP list");
+        assert!(out.len() == 2 && out[0] == 0x01 && tk::is_list(out[1], 5, if SIGNED { 11 } else { 8 }), "eip2930: type byte 0x01 followed by exactly one RLP list");
         let (calls, n, it) = unsafe { (tk::LIST_CALLS, tk::NITEMS, tk::ITEMS) };
         assert!(calls == 1, "eip2930: one list");
         assert!(n == if SIGNED { 11 } else { 8 }, "eip2930: 8 fields, 11 when signed");
